@@ -240,3 +240,139 @@ func NonNil(v ssa.Value) bool {
 	}
 	return false
 }
+
+// OriginInSpawner maps a value used inside the body of a spawned function literal back to the
+// spawner: a parameter is the matching argument of the go/call instruction; a captured variable (or
+// a load of it) is the bound cell. Returns nil when v is neither.
+func OriginInSpawner(cc *ssa.CallCommon, fn *ssa.Function, v ssa.Value) ssa.Value {
+	for {
+		switch x := v.(type) {
+		case *ssa.ChangeType:
+			v = x.X
+			continue
+		case *ssa.MakeInterface:
+			v = x.X
+			continue
+		case *ssa.UnOp:
+			if x.Op == token.MUL {
+				if _, isFV := x.X.(*ssa.FreeVar); isFV {
+					v = x.X
+					continue
+				}
+			}
+		}
+		break
+	}
+	switch x := v.(type) {
+	case *ssa.Parameter:
+		for i, p := range fn.Params {
+			if p == x && i < len(cc.Args) {
+				return cc.Args[i]
+			}
+		}
+	case *ssa.FreeVar:
+		if mc, ok := cc.Value.(*ssa.MakeClosure); ok {
+			if b := Binding(mc, x); b != nil {
+				if al, isAl := b.(*ssa.Alloc); isAl {
+					return &ssa.UnOp{Op: token.MUL, X: al}
+				}
+				return b
+			}
+		}
+	}
+	return nil
+}
+
+// CellHolds reports whether value v (possibly a synthetic load of a local cell, see OriginInSpawner)
+// is target or a cell into which target is stored.
+func CellHolds(v, target ssa.Value) bool {
+	if v == nil {
+		return false
+	}
+	v = Strip(v)
+	if v == target {
+		return true
+	}
+	if u, ok := v.(*ssa.UnOp); ok && u.Op == token.MUL {
+		if al, ok := u.X.(*ssa.Alloc); ok && al.Referrers() != nil {
+			for _, r := range *al.Referrers() {
+				if st, ok := r.(*ssa.Store); ok && st.Addr == ssa.Value(al) && Strip(st.Val) == target {
+					return true
+				}
+			}
+		}
+	}
+	if ct, ok := v.(*ssa.ChangeType); ok {
+		return CellHolds(ct.X, target)
+	}
+	return false
+}
+
+// ParamWrite is a write a spawned function performs through one of its pointer/map parameters: the
+// object is shared with the spawner and with sibling goroutines that were handed the same argument.
+type ParamWrite struct {
+	Instr  ssa.Instruction
+	Param  *ssa.Parameter
+	Kind   string // "mapupdate", "mapdelete", "field", "slot"
+	Locked []Held
+}
+
+// ParamWrites enumerates map updates / deletes, field stores and element stores reached from the
+// parameters of fn through field selections and loads (the function body only).
+func ParamWrites(fn *ssa.Function) []ParamWrite {
+	var out []ParamWrite
+	for _, p := range fn.Params {
+		switch p.Type().Underlying().(type) {
+		case *types.Pointer, *types.Map, *types.Slice:
+		default:
+			continue
+		}
+		seen := map[ssa.Value]bool{}
+		var walk func(v ssa.Value, isAddr bool)
+		walk = func(v ssa.Value, isAddr bool) {
+			if seen[v] || v.Referrers() == nil {
+				return
+			}
+			seen[v] = true
+			for _, r := range *v.Referrers() {
+				switch x := r.(type) {
+				case *ssa.FieldAddr:
+					if x.X == v {
+						walk(x, true)
+					}
+				case *ssa.IndexAddr:
+					if x.X == v {
+						walk(x, true)
+					}
+				case *ssa.UnOp:
+					if x.Op == token.MUL && x.X == v {
+						walk(x, false)
+					}
+				case *ssa.Store:
+					if x.Addr == v && isAddr {
+						k := "field"
+						if _, isIdx := v.(*ssa.IndexAddr); isIdx {
+							k = "slot"
+						}
+						out = append(out, ParamWrite{Instr: x, Param: p, Kind: k})
+					}
+				case *ssa.MapUpdate:
+					if x.Map == v {
+						out = append(out, ParamWrite{Instr: x, Param: p, Kind: "mapupdate"})
+					}
+				case *ssa.Call:
+					if CalleeName(&x.Call) == "builtin.delete" && len(x.Call.Args) > 0 && x.Call.Args[0] == v {
+						out = append(out, ParamWrite{Instr: x, Param: p, Kind: "mapdelete"})
+					}
+				case *ssa.Phi:
+					walk(x, isAddr)
+				}
+			}
+		}
+		walk(p, false)
+	}
+	for i := range out {
+		out[i].Locked = HeldAt(out[i].Instr)
+	}
+	return out
+}
